@@ -59,10 +59,40 @@ def generate(seed, tier):
             ops.append(["query", [[rng.choice(QUERIES0), 0] for _ in range(rng.randint(1, 5))]])
         if mode == "step" and rng.random() < 0.1:
             ops.append(["rng_perturb", rng.randint(0, 5), rng.randrange(1 << 30) if rng.random() < 0.3 else None])
-        ops.append(["rule_step", int(rng.random() < 0.6)])
+        ops.append(["rule_step", int(rng.random() < 0.6), 0])
+    two = mode == "step" and rule["kind"] in ("mwkr_pair", "score", "tie") and rng.random() < 0.4
     cfg = {"instance": spec, "rule": rule, "chooser": rng.choice(["first", "random"]), "chooser_how": rng.choice(["str", "enum", "callable"]),
-           "filter": filt, "mode": mode, "two_dispatchers": rule["kind"] in ("mwkr_pair", "score", "tie") and rng.random() < 0.3,
+           "filter": filt, "mode": mode, "two_dispatchers": two,
            "clock_seed": rng.randrange(1 << 30), "other_seed": rng.randrange(1 << 30)}
+    if two:
+        # a second dispatcher over a DIFFERENT instance shares the solver (and, for the observer-based rule, the
+        # module-global scorer); the two are stepped alternately, in seeded random order, or one after the other
+        spec2 = gen_instance(rng, max_jobs=4, max_machines=4, max_ops=4) if rng.random() < 0.8 else spec
+        cfg["instance2"] = spec2
+        extra = [["rule_step", int(rng.random() < 0.6), 1] for _ in range(n_ops(spec2))]
+        order = rng.choice(["alternate", "random", "sequential", "sequential_reverse"])
+        steps0 = [o for o in ops if o[0] == "rule_step"]
+        if order == "sequential":
+            ops = ops + extra
+        elif order == "sequential_reverse":
+            ops = extra + ops
+        elif order == "alternate":
+            merged, a, b = [], list(ops), list(extra)
+            while a or b:
+                while a:
+                    o = a.pop(0)
+                    merged.append(o)
+                    if o[0] == "rule_step":
+                        break
+                if b:
+                    merged.append(b.pop(0))
+            ops = merged
+        else:
+            merged, a, b = [], list(ops), list(extra)
+            while a or b:
+                src = a if (a and (not b or rng.random() < 0.5)) else b
+                merged.append(src.pop(0))
+            ops = merged
     return {"prop": PROP, "cfg": cfg, "ops": ops if mode == "step" else []}
 
 
@@ -209,8 +239,7 @@ def execute_step(case, ctx):
     names = filter_names(cfg)
     sides = [Side(cfg["instance"], solver, names)]
     if cfg["two_dispatchers"]:
-        sides.append(Side(cfg["instance"], solver, names))
-        other_rng = random.Random(cfg["other_seed"])
+        sides.append(Side(cfg.get("instance2", cfg["instance"]), solver, names))
     # separate scorer objects for the harness's own evaluation of scores
     rule = cfg["rule"]
     harness_scorers = []
@@ -225,6 +254,8 @@ def execute_step(case, ctx):
     cur = 0
     for i, op in enumerate(case["ops"]):
         ctx.step = i
+        if op[0] == "rule_step":
+            cur = op[2] if len(op) > 2 and len(sides) > 1 else 0
         side = sides[cur]
         d, m = side.disp, side.model
         if op[0] == "query":
@@ -246,8 +277,6 @@ def execute_step(case, ctx):
             continue
         if m.is_complete():
             ctx.event(i, "rule_step", "noop")
-            if cfg["two_dispatchers"]:
-                cur = 1 - cur
             continue
         # ---- consult the rule before the step
         try:
@@ -313,12 +342,10 @@ def execute_step(case, ctx):
         ctx.states.add(h64((h64(side.jobs), tuple(after), tuple(d.machine_next_available_time))))
         ctx.event(i, "rule_step", cur, (j, p, so[0].machine_id))
         if cfg["two_dispatchers"]:
-            cur = 1 - cur
-            ctx.probe("alternating_dispatchers")
+            ctx.probe("step_with_two_dispatchers_sharing_scorer")
     # ---- bounded liveness + final schedule
-    for side in sides:
-        n_steps_offered = sum(1 for o in case["ops"] if o[0] == "rule_step")
-        share = n_steps_offered if len(sides) == 1 else (n_steps_offered + (1 if side is sides[0] else 0)) // 2
+    for k, side in enumerate(sides):
+        share = sum(1 for o in case["ops"] if o[0] == "rule_step" and (len(sides) == 1 or (o[2] if len(o) > 2 else 0) == k))
         if share >= side.model.n_ops:
             ctx.check(side.disp.schedule.is_complete(), "terminates_within_n_steps", lambda: f"{share} solver steps did not complete the {side.model.n_ops}-operation schedule")
             ctx.probe("completed_by_steps")
@@ -396,6 +423,10 @@ def simplify(case):
         yield {**case, "cfg": {**cfg, "filter": {"names": []}}}
     if cfg["two_dispatchers"]:
         yield {**case, "cfg": {**cfg, "two_dispatchers": False}}
+        if cfg.get("instance2") not in (None, cfg["instance"]):
+            from ..instances import shrink_candidates
+            for sp in shrink_candidates(cfg["instance2"]):
+                yield {**case, "cfg": {**cfg, "instance2": sp}}
     if cfg["rule"]["kind"] == "tie" and len(cfg["rule"]["fns"]) > 1:
         for k in range(len(cfg["rule"]["fns"])):
             yield {**case, "cfg": {**cfg, "rule": {"kind": "tie", "fns": cfg["rule"]["fns"][:k] + cfg["rule"]["fns"][k + 1:]}}}
